@@ -69,6 +69,8 @@ pub struct ItemSpec {
     pub attrs: Vec<String>,
     pub drop_derives: Vec<String>,
     pub drop_attrs: Vec<String>,
+    /// drop `pub` / `pub(crate)` from the extracted fn (its contract names private spec functions)
+    pub private: bool,
     pub sig: Option<String>,
     pub requires: Vec<Clause>,
     pub ensures: Vec<Clause>,
@@ -190,6 +192,7 @@ pub fn parse_unit(text: &str) -> Unit {
             "@attr" => cur_item!().attrs.push(if block_t.is_empty() { rest.clone() } else { block_t.clone() }),
             "@dropderive" => cur_item!().drop_derives.extend(words.clone()),
             "@dropattr" => cur_item!().drop_attrs.extend(words.clone()),
+            "@private" => cur_item!().private = true,
             "@sig" => cur_item!().sig = Some(if block_t.is_empty() { rest.clone() } else { block_t.clone() }),
             "@prop" => cur_item!().property = Some(words[0].clone()),
             "@requires" => {
